@@ -75,6 +75,12 @@ def growth_oracle(ctx, spec, T, seed, kind, args, vol0, r, t0=0.0):
     if len(vol) != len(r["rows"]) or len(times) != len(vol):
         ctx.violation("volume/shape", "volume trace, time axis and rows have different lengths", dict(rep, lengths=[len(vol), len(times), len(r["rows"])]))
         return
+    if len(times) == 0:
+        # the cell divided before the first requested time (a grid that starts later than the cell): nothing to report
+        if not r["divided"]:
+            ctx.violation("volume/shape", "an empty result that is not flagged as divided", rep)
+        ctx.count("divided_before_first_requested_time")
+        return
     if np.any(vol <= 0):
         ctx.violation("volume/positive", "a reported volume is not positive", dict(rep, volume=vol.tolist()[:10]))
         return
